@@ -80,6 +80,12 @@ func (l *recorder) SetLogSource(string) error    { return nil }
 func (l *recorder) SetLoggerSource(string) error { return nil }
 func (l *recorder) Log(output ...interface{})    { l.record(false, output) }
 func (l *recorder) LogError(err ...interface{})  { l.record(true, err) }
+func (l *recorder) reset() {
+	l.mu.Lock()
+	l.msgs = nil
+	l.mu.Unlock()
+}
+
 func (l *recorder) snapshot() []recMsg {
 	l.mu.Lock()
 	defer l.mu.Unlock()
@@ -202,6 +208,15 @@ func (m *monitor) run(cs *caseSpec) *runResult {
 		case "new-execute":
 			p, startErr = subprocess.New(ctx, rec, res.tokStart, res.tokOK, res.tokFail, m.exe, args...)
 			if startErr == nil {
+				runErr = p.Execute()
+			}
+		case "new-execute-again":
+			// one Subprocess value, run twice: what is judged is the second run (messages, lines, result)
+			p, startErr = subprocess.New(ctx, rec, res.tokStart, res.tokOK, res.tokFail, m.exe, args...)
+			if startErr == nil {
+				_ = p.Execute()
+				rec.reset()
+				_ = os.Remove(donePath)
 				runErr = p.Execute()
 			}
 		case "new-env-execute":
